@@ -129,7 +129,8 @@ int main(int argc, char **argv)
 {
   Args args(argc, argv);
   bool thorough = args.thorough();
-  int L = thorough ? 5 : 4;
+  int L_short = thorough ? 5 : 4;
+  int L = L_short;
   int NL = thorough ? 7 : 5;  // quick: bin centres, off-centre, exact edge, just below the grid
   std::vector<Conf> confs = {
       {"grids-hw1-freq1", 0, true, 1, 0, 1.0, 0, false, false, false, 1.0, 3.0},
@@ -157,10 +158,22 @@ int main(int argc, char **argv)
       if (only.size() && only != c.name) continue;
       std::string conf = conf_text(c);
       double T = c.well_tempered ? 300.0 : 0.0;
-      for (long w = shard; w < nw; w += nsh) {
-        std::vector<int> word(L);
-        long q = w;
-        for (int i = 0; i < L; i++) { word[i] = q % NL; q /= NL; }
+      // all words of length L, then two long scripted words (40 values; thorough 64) visiting the alphabet in a fixed
+      // irregular order: tabulated bias, off-grid lists and well-tempered heights accumulate over many more hills
+      long nlong = 2;
+      for (long wq = shard; wq < nw + nlong; wq += nsh) {
+        long w = wq;
+        int L = L_short;
+        std::vector<int> word;
+        if (wq >= nw) {
+          L = thorough ? 64 : 40;
+          word.resize(L);
+          for (int i = 0; i < L; i++) word[i] = (int) (((wq - nw + 2) * (long) i * i + 3 * i + (wq - nw)) % NL);
+        } else {
+          word.resize(L);
+          long q = w;
+          for (int i = 0; i < L; i++) { word[i] = q % NL; q /= NL; }
+        }
         std::string wj = "[";
         for (int i = 0; i < L; i++) wj += (i ? "," : "") + num(VAL[word[i]]);
         wj += "]";
